@@ -242,6 +242,18 @@ Theorem C09_record_data_flavours : forall msg nq an ns ar qs rs e1 e2, parsed ms
      end).
 Proof. exact data_flavours_any. Qed.
 
+(* the remaining-counts the reader reports in a represented state (idx, hw) are those of the linear
+   pass: questions nq - min idx nq; per section its count minus the records of it already passed
+   ([rd]: min (idx - nq - start of the section) count); records_count their sum *)
+Theorem C09_counts_reader : forall msg nq an ns ar qs rs e1 e2, parsed msg nq an ns ar qs rs e1 e2 ->
+  forall r idx hw, RState msg nq an ns ar qs rs e2 r idx hw ->
+  rd_questions_count r = Ok (ONum (nq - N.min idx nq)) /\
+  rd_records_count_in 0 r = Ok (ONum (an - rd nq an ns ar idx 0)) /\
+  rd_records_count_in 1 r = Ok (ONum (ns - rd nq an ns ar idx 1)) /\
+  rd_records_count_in 2 r = Ok (ONum (ar - rd nq an ns ar idx 2)) /\
+  rd_records_count r = Ok (ONum ((an - rd nq an ns ar idx 0) + (ns - rd nq an ns ar idx 1) + (ar - rd nq an ns ar idx 2))).
+Proof. exact counts_reader_any. Qed.
+
 (* seek to a section whose offset is NOT known (the high-water mark has not passed its first item):
    on a reader standing right behind the header (idx 0) the reader gets there by skipping — all
    questions, then the lower sections record by record — and, if everything up to the target
